@@ -739,6 +739,8 @@ impl Engine {
         let t0 = Instant::now();
         let mut released: Vec<Key> = vec![];
         let mut machinery: Option<String> = None;
+        // Some(..) once the client was seen to follow another (legitimate) request pattern than the scripted one
+        let mut deviation: Option<String> = None;
         let mut order_confirmed = true;
         // with concurrency > 1: hold everything until every expected gate has been requested
         if gate_all && !expected.is_empty() {
@@ -757,8 +759,10 @@ impl Engine {
                     last_change = Instant::now();
                 }
                 if !have.is_empty() && last_change.elapsed() > IDLE && self.idle.parked.load(Ordering::SeqCst) == self.idle.workers {
+                    // the client chose other fetch ranges than the plan's (any range that contains the term is a
+                    // legitimate choice): no longer steer it, release what it asks for and judge the output
                     DEVIATIONS.fetch_add(1, Ordering::SeqCst);
-                    machinery = Some(format!("the client went idle having requested the gates {have:?} instead of the expected {expected:?}"));
+                    deviation = Some(format!("the client went idle having requested the gates {have:?} instead of the expected {expected:?}"));
                     break;
                 }
                 if t0.elapsed() > WATCHDOG {
@@ -775,7 +779,7 @@ impl Engine {
                 break d;
             }
             let next_scripted = script.iter().find(|k| !released.contains(k)).copied();
-            let choice: Option<Key> = if machinery.is_some() {
+            let choice: Option<Key> = if machinery.is_some() || deviation.is_some() {
                 st.pending.first().map(|p| p.key)
             } else if gate_all {
                 match next_scripted {
@@ -787,9 +791,9 @@ impl Engine {
             };
             match choice {
                 None => {
-                    if gate_all && machinery.is_none() && !st.pending.is_empty() && last_event.elapsed() > IDLE && self.idle.parked.load(Ordering::SeqCst) == self.idle.workers {
+                    if gate_all && machinery.is_none() && deviation.is_none() && !st.pending.is_empty() && last_event.elapsed() > IDLE && self.idle.parked.load(Ordering::SeqCst) == self.idle.workers {
                         DEVIATIONS.fetch_add(1, Ordering::SeqCst);
-                        machinery = Some(format!("the client went idle without requesting the scripted gate {next_scripted:?}; pending {:?}", st.pending.iter().map(|p| p.key).collect::<Vec<_>>()));
+                        deviation = Some(format!("the client went idle without requesting the scripted gate {next_scripted:?}; pending {:?}", st.pending.iter().map(|p| p.key).collect::<Vec<_>>()));
                         continue;
                     }
                     if last_event.elapsed() > WATCHDOG {
@@ -841,7 +845,7 @@ impl Engine {
                         released.push(k);
                     }
                     last_event = Instant::now();
-                    if gate_all {
+                    if gate_all && deviation.is_none() {
                         // separation: the client must have digested this response before the next gate opens
                         let served = |q: &Option<Key>| q.map_or(true, |q| released.contains(&q));
                         let target = if self.writer_seq {
@@ -865,6 +869,13 @@ impl Engine {
                                 order_confirmed = false;
                                 break;
                             }
+                            // idle with a request waiting: the client is after another gate than the plan thought
+                            if ts.elapsed() > IDLE && self.idle.parked.load(Ordering::SeqCst) == self.idle.workers && !self.sh.mu.lock().unwrap().pending.is_empty() {
+                                DEVIATIONS.fetch_add(1, Ordering::SeqCst);
+                                deviation = Some("the client went idle waiting for a gate that the scripted order had not reached".to_string());
+                                order_confirmed = false;
+                                break;
+                            }
                             std::thread::sleep(Duration::from_micros(50));
                         }
                     }
@@ -877,6 +888,9 @@ impl Engine {
         };
         if let Some(m) = machinery {
             bad.push(m);
+        }
+        if deviation.is_some() {
+            order_confirmed = false;
         }
         let out = std::fs::read(&path).ok();
         let _ = std::fs::remove_file(&path);
